@@ -55,7 +55,7 @@ def cases(draw, tier):
             k['after'] = draw(st.sampled_from([0.5, 1, 2]))
     blk = {'op': 'scope', 'name': 'S', 'children': kids, 'body': [], 'catch': True}
     if draw(st.integers(0, 6)) == 0:
-        blk['op'], blk['notif'] = 'until', ['delay', draw(st.sampled_from([0.5, 1, 2, 3]))]
+        blk['op'], blk['notif'] = 'until', (['delay', draw(st.sampled_from([0.5, 1, 2, 3]))] if draw(st.booleans()) else ['flag', 0])
     ctl = {'name': 'ctl', 'steps': [{'op': 'at_eq', 't': draw(st.sampled_from([0.5, 1, 2]))}] +
            [{'op': 'instant'} for _ in range(draw(st.integers(0, 3)))] + [{'op': 'set_flag', 'i': 0, 'v': True}]}
     fin = {'name': 'fin', 'steps': [{'op': 'at_ge', 't': 500}, {'op': 'cclose', 's': 0}, {'op': 'cget', 's': 0},
@@ -73,7 +73,7 @@ def cases(draw, tier):
     else:
         faults = draw(st.lists(st.fixed_dictionaries({'k': st.integers(0, 120), 'target': st.sampled_from(targets),
                                                       'token': st.just([1])}), max_size=5))
-    return {'prog': prog, 'targets': targets, 'faults': faults}
+    return {'prog': prog, 'targets': targets, 'faults': faults, 'ctl_sweep': big and draw(st.integers(0, 2)) == 0}
 
 
 def judge(out, prog, it, oc, exc, ctx):
@@ -218,6 +218,7 @@ class C11(Check):
         prog = case['prog']
         mk = lambda: Probe(b_step=4000, b_total=40000)  # noqa
         it, oc, exc, p = execute(prog, mk())
+        it0 = it
         out.evals = 1
         n = judge(out, prog, it, oc, exc, ' faults=None') or 0
         N = p.k
@@ -231,6 +232,14 @@ class C11(Check):
             judge(out, prog, it, oc, exc, ' faults=%r' % (faults,))
         if n >= 2 and ({'consumer_interrupted', 'early_break'} & out.features or n >= 3):
             out.nontrivial = True
+        if case.get('ctl_sweep'):
+            # until-interrupt / forceful close placed in every round of every time step of the run
+            from vlib.gen import ctl_variants
+            for q in ctl_variants(prog, it0):
+                it, oc, exc, p = execute(q, mk())
+                out.evals += 1
+                judge(out, q, it, oc, exc, ' ctl=%r' % ([r['steps'] for r in q['roots'] if r['name'] == 'ctl'][0][:1] + ['x%d' % (len([r for r in q['roots'] if r['name'] == 'ctl'][0]['steps']) - 2)],))
+            out.features.add('ctl_sweep')
         return out
 
 
